@@ -176,15 +176,15 @@ func genC11(t *rapid.T) c11Scenario {
 		case "danglingSensor":
 			for i := range sc.Curves {
 				if sc.Curves[i].Sensor != "" {
-					sc.Curves[i].Sensor = "s_nowhere"
+					sc.Curves[i].Sensor = c11NearMiss(t, sc.Curves[i].Sensor, "s_nowhere")
 					break
 				}
 			}
 		case "danglingMember":
 			fn := c11PickFn(t, &sc)
-			fn.Members = append(fn.Members, "c_nowhere")
+			fn.Members = append(fn.Members, c11NearMiss(t, sc.Curves[0].Id, "c_nowhere"))
 		case "danglingFanCurve":
-			sc.Fans[0].Curve = "c_nowhere"
+			sc.Fans[0].Curve = c11NearMiss(t, sc.Fans[0].Curve, "c_nowhere")
 		case "selfRef":
 			fn := c11PickFn(t, &sc)
 			fn.Members = append(fn.Members, fn.Id)
@@ -406,10 +406,33 @@ func (w *yw) str(s string) string {
 	case 2:
 		return "'" + s + "'"
 	}
-	if s == "" {
-		return "\"\""
+	if s == "" || s != strings.TrimSpace(s) {
+		return "\"" + s + "\""
 	}
 	return s
+}
+
+// c11NearMiss is a reference that names nothing, but looks like id to a sloppy comparison: other
+// letter case, surrounding blanks ("c_nowhere" itself in one of four draws)
+func c11NearMiss(t *rapid.T, id, nowhere string) string {
+	if id == "" {
+		return nowhere
+	}
+	switch rapid.IntRange(0, 7).Draw(t, "nearMiss") {
+	case 0:
+		return strings.ToUpper(id)
+	case 1:
+		return strings.ToUpper(id[:1]) + id[1:]
+	case 2:
+		return id + " "
+	case 3:
+		return " " + id
+	case 4:
+		return id[:len(id)-1] + strings.ToUpper(id[len(id)-1:])
+	case 5:
+		return id + "_"
+	}
+	return nowhere
 }
 func (w *yw) line(indent int, format string, a ...any) {
 	w.b.WriteString(strings.Repeat("  ", indent))
@@ -520,7 +543,11 @@ func renderC11(sc *c11Scenario, dir string) string {
 				if len(c.Members) == 0 {
 					w.line(3, "%s: []", w.key("curves"))
 				} else if w.sc.Flow {
-					w.line(3, "%s: [ %s ]", w.key("curves"), strings.Join(c.Members, ", "))
+					qs := make([]string, len(c.Members))
+					for i, m := range c.Members {
+						qs[i] = w.str(m)
+					}
+					w.line(3, "%s: [ %s ]", w.key("curves"), strings.Join(qs, ", "))
 				} else {
 					w.line(3, "%s:", w.key("curves"))
 					for _, m := range c.Members {
